@@ -174,9 +174,9 @@ def run(ctx):
                         'protocol names and names reached through strings/getattr do not occur in the generated programs']
     progs = list(itertools.islice(c03.enum_bodies(2, 2, ['a']), ctx.n(40000, 400000)))
     ctx.rng.shuffle(progs)
-    progs = progs[:ctx.n(int(os.environ.get("C05_N", 500)), 6000)]
+    progs = progs[:ctx.n(int(os.environ.get("C05_N", 150)), 6000)]
     counter = [0]
-    for _ in range(ctx.n(int(os.environ.get("C05_M", 300)), 4000)):
+    for _ in range(ctx.n(int(os.environ.get("C05_M", 120)), 4000)):
         progs.append(c03.rand_body(ctx.rng, ctx.rng.randint(1, 4), ctx.rng.randint(2, 5), ['a', 'b'], counter))
     results = common.pmap(_task, progs, chunksize=8)
     defs, rcases, rmeta, tcases, tmeta, fcases = [DEFS], [], [], [], [], []
